@@ -66,6 +66,16 @@ func buildScenarios(c *core.Ctx) []func() *Scenario {
 	for k := 0; k < c.N(4, 30); k++ {
 		add(func(i int, sd int64) *Scenario { return genRotRace(i, sd, th) })
 	}
+	// directed: unterminated line held across a maintenance reopen, completed later
+	for k := 0; k < c.N(6, 48); k++ {
+		k := k
+		add(func(i int, sd int64) *Scenario { return genHeldTail(i, sd, k, th) })
+	}
+	// directed: truncation while file.d is down, restart on the persisted offsets
+	for k := 0; k < c.N(6, 48); k++ {
+		k := k
+		add(func(i int, sd int64) *Scenario { return genDownTrunc(i, sd, k, th) })
+	}
 	// truncation clause
 	tails := []string{"complete", "fragment", "blank"}
 	if th {
@@ -219,6 +229,14 @@ func run(c *core.Ctx) {
 	if c.Counter("lines.redelivered_duplicates") == 0 {
 		c.Fatal("no line was ever delivered twice: kills never fell between output and offset save")
 	}
+	if os.Getenv("C03_ONLY") == "" && os.Getenv("C03_KIND") == "" {
+		if c.Counter("heldtail.scenarios_with_reopen_while_partial_held") == 0 {
+			c.Fatal("no scenario in which maintenance reopened a file while a line was held unterminated")
+		}
+		if c.Counter("downtrunc.truncation_reported_by_run2") == 0 || c.Counter("downtrunc.file_had_saved_offsets_beyond_new_size") == 0 {
+			c.Fatal("no restart met a file truncated while down below its saved offsets")
+		}
+	}
 	if c.Counter("trunc.decided") == 0 && os.Getenv("C03_ONLY") == "" {
 		c.Fatal("no truncation scenario was decided")
 	}
@@ -342,6 +360,21 @@ func judge(c *core.Ctx, res *result) {
 	if res.OffsetsAtKil == "" {
 		c.Count("kill.no_offsets_file_at_kill", 1)
 	}
+	if s.Kind == "heldtail" {
+		c.Count("heldtail.maintenance_ticks_that_reopened_a_file_while_a_line_was_unterminated", int64(res.ReopensHeld))
+		if res.ReopensHeld > 0 {
+			c.Count("heldtail.scenarios_with_reopen_while_partial_held", 1)
+		}
+	}
+	if s.Kind == "downtrunc" {
+		c.Count("downtrunc.decided", 1)
+		if res.TruncSeen > 0 {
+			c.Count("downtrunc.truncation_reported_by_run2", 1)
+		}
+		if res.MinSavedDown >= 0 {
+			c.Count("downtrunc.file_had_saved_offsets_beyond_new_size", 1)
+		}
+	}
 	if res.TmpFiles > 0 {
 		c.Count("kill.left_temporary_offsets_file", 1)
 	}
@@ -378,6 +411,9 @@ func judge(c *core.Ctx, res *result) {
 		c.Count("aux.run1_reported_a_truncation_that_never_happened", 1)
 		c.Count(fmt.Sprintf("aux.run1_reported_a_truncation_that_never_happened.watch=%t", s.Cfg.WatchChanges), 1)
 	}
+	if res.KilledBy == "term-then-kill" {
+		c.Count("aux.sigterm_saved_offsets_but_process_did_not_exit", 1)
+	}
 	if res.Run1Readded > 0 {
 		c.Count("aux.run1_job_deleted_by_maintenance_then_added_again", 1)
 	}
@@ -393,6 +429,19 @@ func judge(c *core.Ctx, res *result) {
 			ex = sanitize(res.Run1Fatals[0], res.Dir)
 		}
 		auxNote(aux, s.Idx, ex)
+	}
+	if res.Stuck != "" && s.Kind == "downtrunc" {
+		violation(c, s, "C03:truncation-while-down:new-content-not-delivered:alive-but-never-idle",
+			"content written after a truncation performed while file.d was down was not delivered and run 2 never became idle ("+res.Stuck+")",
+			witness(res, nil, map[string]any{"run2_log_tail": res.Run2LogTail}))
+		return
+	}
+	if res.Run2Died != "" && s.Kind == "downtrunc" {
+		cls := fatalClass(res.Run2Fatals, res.Run2LogTail)
+		violation(c, s, "C03:truncation-while-down:run2-died:"+cls,
+			"file.d restarted on its persisted offsets after the file had been truncated while it was down, and died: "+res.Run2Died,
+			witness(res, nil, map[string]any{"fatals": res.Run2Fatals, "log_tail": res.Run2LogTail}))
+		return
 	}
 	if res.Run2Died != "" {
 		cls := fatalClass(res.Run2Fatals, res.Run2LogTail)
@@ -417,6 +466,22 @@ func judge(c *core.Ctx, res *result) {
 			continue
 		}
 		ph := res.Phys[l.Phys]
+		if s.Kind == "downtrunc" {
+			e := byInode[ph.Inode]
+			stale := false
+			var own int64 = -1
+			if e != nil {
+				if v, ok := e.Streams[streamKey(l.Stream)]; ok {
+					own = v
+					stale = l.End <= v
+				}
+			}
+			sig := fmt.Sprintf("C03:truncation-while-down:line-written-after-the-truncation-lost:at-or-below-stale-saved-offset-of-its-stream=%t:truncation-reported-by-run2=%t:logged-undecodable=%t",
+				stale, res.TruncSeen > 0, res.BadIDs[l.ID])
+			groups[sig] = append(groups[sig], map[string]any{"id": l.ID, "stream": streamKey(l.Stream), "start": l.Start, "end": l.End,
+				"written_in": l.Phase, "stale_saved_offset_of_its_stream": own, "min_saved_offset_of_file": res.MinSavedDown})
+			continue
+		}
 		sig, detail := classifyLost(l, ph, byInode[ph.Inode])
 		detail["truncations_reported_by_run1_though_none_happened"] = res.Run1Trunc
 		if e := byInode[ph.Inode]; e != nil {
